@@ -134,6 +134,9 @@ class Ctx:
         for f in os.listdir(BUILD):
             if f.startswith(prefix) and os.path.join(BUILD, f) != exe and ".tmp" not in f:
                 try:
+                    # a build used within the last hour may belong to a concurrent run against another tree (VERIF_REPO)
+                    if time.time() - os.path.getmtime(os.path.join(BUILD, f)) < 3600:
+                        continue
                     os.unlink(os.path.join(BUILD, f))
                 except OSError:
                     pass
